@@ -708,6 +708,13 @@ Fixpoint no_adjacent_content (toks : list ftok) : bool :=
   | [] => true
   end.
 
+(** Every markup token whose right marker is "-" is followed by rendered text
+    that does not begin with whitespace. *)
+Definition right_marker_honoured (dt : wc) (toks : list ftok) : Prop :=
+  forall pre l r rest,
+    toks = pre ++ FM l r :: rest -> resolve dt r = Minus ->
+    starts_ws (run_text dt r rest None) = false.
+
 (** * Helpers for the correspondence run *)
 
 Definition wc_pair_eqb (a b : str * wc * wc) : bool :=
